@@ -448,6 +448,28 @@ func cmdSig(args []string) {
 			}
 		}
 	}
+	// certificates on which some lint answers FATAL by its own decision (it could not decode something): the details of such a
+	// result are part of the verdict too.  A key usage BIT STRING without content octets is one such input.
+	nfatal := 0
+	for _, o := range c.Certs {
+		if nfatal >= 4 || bytes.Equal(o.Cert.RawIssuer, o.Cert.RawSubject) {
+			continue
+		}
+		fc, err := forge.ParseCert(o.DER)
+		if err != nil || fc.FindExt("2.5.29.15") == nil {
+			continue
+		}
+		fc.SetExt("2.5.29.15", forge.MakeExt(forge.OID(2, 5, 29, 15), true, []byte{0x03, 0x01, 0x00}))
+		cert, ok, _ := corpus.ParseCert(fc.Bytes())
+		if !ok {
+			continue
+		}
+		t := &Target{Kind: "cert", ID: "forged:fatal-ku:" + o.ID, DER: fc.Bytes(), Cert: cert}
+		if rs, esc, hung := runSet(t, lint.GlobalRegistry()); rs != nil && esc == "" && !hung && rs.FatalsPresent {
+			objs = append(objs, t)
+			nfatal++
+		}
+	}
 	h := newHistory(objs)
 	type kept struct {
 		oi int
